@@ -181,6 +181,7 @@ type vxC08Out struct {
 	staleBit int // stale CAS on a bitset word
 	staleOff int
 	reclears int
+	raced    int // releases of one id that overlapped
 }
 
 // vxC08RunSched executes one scheduled case and judges it.
@@ -232,6 +233,9 @@ func vxC08RunSched(c *vxC08Sched) (*vxC08Out, error) {
 		addrs = append(addrs, unsafe.Pointer(&s.streams[i]))
 	}
 	calls := make([][]*vxC08Call, nw)
+	// ids released by any worker (one worker runs at a time under the scheduler: a plain slice will do); a
+	// "reclear" may pick an id another worker released or is releasing just now - two releases of one id racing
+	var releasedAll []int
 	res := vsched.Run(vsched.Config{Workers: nw, Choices: c.Choices, AutoColdLoads: c.Auto, MaxSteps: 400000, Addrs: addrs},
 		func(w *vsched.Worker) {
 			var mine, released []int
@@ -261,11 +265,16 @@ func vxC08RunSched(c *vxC08Sched) (*vxC08Out, error) {
 					cl.id = mine[j]
 					mine = append(mine[:j], mine[j+1:]...)
 					released = append(released, cl.id)
+					releasedAll = append(releasedAll, cl.id)
 					cl.ok = s.Clear(cl.id)
 				case "reclear":
 					// an id this worker released and does not hold again
 					var cand []int
-					for _, id := range released {
+					pool := released
+					if op.Sel < 0 || sel >= 2 {
+						pool = releasedAll
+					}
+					for _, id := range pool {
 						again := false
 						for _, m := range mine {
 							again = again || m == id
@@ -375,9 +384,30 @@ func vxC08RunSched(c *vxC08Sched) (*vxC08Out, error) {
 			continue
 		}
 		for _, h := range byID[cl.id] {
-			if h.getInv < cl.ret && cl.inv < h.clearRet {
+			// (overlapping the owner's own Clear call is in the domain: two releases of one id racing)
+			if h.getInv < cl.ret && cl.inv < h.to {
 				out.excluded = "reclear-raced-with-reacquire"
 				return out, nil
+			}
+		}
+		// ... and so is a release that races with the owner's release while the id is acquired again before both
+		// have returned: the slower of the two hits the new holder's id
+		for _, h := range byID[cl.id] {
+			if h.to == vxInf || !(h.to < cl.ret && cl.inv < h.clearRet) {
+				continue
+			}
+			lo, hi := cl.inv, cl.ret
+			if h.to < lo {
+				lo = h.to
+			}
+			if h.clearRet > hi {
+				hi = h.clearRet
+			}
+			for _, h2 := range byID[cl.id] {
+				if h2 != h && h2.getInv >= lo && h2.getInv < hi {
+					out.excluded = "racing-releases-with-reacquire"
+					return out, nil
+				}
 			}
 		}
 	}
@@ -408,11 +438,62 @@ func vxC08RunSched(c *vxC08Sched) (*vxC08Out, error) {
 	}
 	// results of clear / reclear
 	for _, cl := range all {
-		if cl.kind == "clear" && !cl.ok {
-			return out, fmt.Errorf("%s: false although the caller holds the id%s", desc(cl), tail())
+		// the other releases of the same id that overlap this call
+		var racing []*vxC08Call
+		for _, o := range all {
+			// (for a clear: the overlapping releases by workers that do not hold the id; for a reclear: the owner's
+			// clear it overlaps. Two "clear" calls that overlap belong to two successive holdings of the id.)
+			if o != cl && (o.kind == "clear" || o.kind == "reclear") && o.kind != cl.kind && o.id == cl.id && o.inv < cl.ret && cl.inv < o.ret {
+				racing = append(racing, o)
+			}
+		}
+		if cl.kind == "clear" && len(racing) > 0 {
+			// Domain: if the id is acquired again while the releases are still in progress, the slower release hits
+			// the new holder's id - a caller error (an id released by somebody who does not hold it), not judged
+			lo, hi := cl.inv, cl.ret
+			for _, o := range racing {
+				if o.inv < lo {
+					lo = o.inv
+				}
+				if o.ret > hi {
+					hi = o.ret
+				}
+			}
+			for _, h := range byID[cl.id] {
+				if h.getInv >= lo && h.getInv < hi {
+					out.excluded = "racing-releases-with-reacquire"
+					return out, nil
+				}
+			}
+		}
+		if cl.kind == "clear" {
+			trues := 0
+			if cl.ok {
+				trues++
+			}
+			for _, o := range racing {
+				if o.ok {
+					trues++
+				}
+			}
+			if len(racing) > 0 {
+				out.raced++
+			}
+			if trues != 1 {
+				if len(racing) == 0 {
+					return out, fmt.Errorf("%s: false although the caller holds the id%s", desc(cl), tail())
+				}
+				return out, fmt.Errorf("%s raced with %d other release(s) of the same id: %d of them reported that the id was in use, exactly one must%s", desc(cl), len(racing), trues, tail())
+			}
 		}
 		if cl.kind == "reclear" && cl.ok {
-			return out, fmt.Errorf("%s: true although the id was already released and nobody acquired it since%s", desc(cl), tail())
+			ownerRacing := false
+			for _, o := range racing {
+				ownerRacing = ownerRacing || o.kind == "clear"
+			}
+			if !ownerRacing {
+				return out, fmt.Errorf("%s: true although the id was already released and nobody acquired it since%s", desc(cl), tail())
+			}
 		}
 	}
 	// failing get: illegal if some id was free during the entire call
@@ -456,7 +537,8 @@ func vxC08RunSched(c *vxC08Sched) (*vxC08Out, error) {
 				if o.inv < cl.ret {
 					hi++
 				}
-			case o.kind == "clear":
+			case (o.kind == "clear" || o.kind == "reclear") && o.ok:
+				// (the release that took effect: of two racing releases of one id, the one that reported "in use")
 				if o.inv < cl.ret {
 					lo--
 				}
@@ -553,6 +635,9 @@ func vxC08Label(c *vxC08Sched, o *vxC08Out, k *vstats.Case) {
 	}
 	if o.reclears > 0 {
 		k.Class("reclear-judged")
+	}
+	if o.raced > 0 {
+		k.Class("two releases of one id overlapped")
 	}
 	words := map[int]bool{}
 	for _, id := range c.Free {
